@@ -424,7 +424,7 @@ type c08FailModel struct {
 func (m *c08FailModel) Distance(s1, s2 []uint8, w []float64) (float64, error) {
 	k := m.nd
 	m.nd++ // only touched by the goroutine holding the scheduler token; each call site is serialised by the controlled scheduler
-	if m.at == "dist" && k == m.idx {
+	if (m.at == "dist" && k == m.idx) || (m.at == "dist-from" && k >= m.idx) {
 		return 0, m.fail
 	}
 	return m.DistModel.Distance(s1, s2, w)
@@ -641,6 +641,16 @@ func c08Tasks(tier string) []mc.Task {
 			ts = append(ts, mc.Task{Name: fmt.Sprintf("fault#seq%d/cpus%d", k, cpus), Run: func(c *mc.Ctx) { c08Sched(c, cs, false) }})
 		}
 	}
+	// several failures in one call: every evaluation from the k-th on fails (each worker may hit its own failure)
+	for _, cpus := range []int{2, 3} {
+		for k := 0; k < 2; k++ {
+			cs := c08Case{Kind: "fault", Seqs: schedSeqs[0], Model: "k2p", Cpus: cpus, Bound: 2, FailAt: "dist-from", FailIdx: k}
+			if thorough {
+				cs.Bound = 3
+			}
+			ts = append(ts, mc.Task{Name: fmt.Sprintf("fault#distfrom%d/cpus%d", k, cpus), Run: func(c *mc.Ctx) { c08Sched(c, cs, false) }})
+		}
+	}
 	// fault with many pairs: a failure while the producer still has > capacity pairs to send
 	{
 		var seqs []string
@@ -702,7 +712,7 @@ func init() {
 		ID:    "C08",
 		Level: "model_checking",
 		Rule: "schedule part: stateless DFS over all interleavings of the real dna.DistMatrix goroutines (main, producer, cpus workers; scheduling points at every go/channel/mutex/WaitGroup operation) with iterative preemption bounds 0,1,2 (quick) / 0..3 (thorough), for 3 sequences x cpus 1..3 x {k2p (with a +Inf pair), jc}, 4 sequences with overlapping ranges, 15 sequences (105 pairs > channel capacity); " +
-			"fault part: the same exploration with a DistModel that fails at each Distance call / each Sequence call in turn; relational part: all alignments of shape 2x1,2x2,3x1,2x3,3x2 (+2x4,3x3 thorough) over {A,C,G,T,-} x 7 models x rm-gaps x gap-count modes under every column permutation, replication (concat, weights) k=2,3, unit weights, reverse complement, every row permutation, cpus 1,2,3. " +
+			"fault part: the same exploration with a DistModel that fails at each Distance call / each Sequence call in turn, and with one that fails at every Distance call from the k-th on (k=0,1; cpus 2,3; preemption bound 2/3); relational part: all alignments of shape 2x1,2x2,3x1,2x3,3x2 (+2x4,3x3 thorough) over {A,C,G,T,-} x 7 models x rm-gaps x gap-count modes under every column permutation, replication (concat, weights) k=2,3, unit weights, reverse complement, every row permutation, cpus 1,2,3. " +
 			"distinct_nontrivial counts distinct (case, schedule) executions of the schedule/fault parts plus relational cases whose matrix has a non-zero entry. states/transitions are nodes/edges of the schedule choice trees.",
 		Assumptions: []string{
 			"sequential consistency (Go programs without data races are SC; races are what the vector-clock check reports)",
